@@ -250,6 +250,15 @@ static void apply(const struct op *o, struct mstate *m) {
                 if (st == POLYSEED_OK) { uint8_t g[32]; polyseed_store(d, g); if (memcmp(g, img, 32)) BADV("c13:typed-phrase:seed", "%s: decode_explicit restored another seed", o->name); } }
             else { st = sa; want = wa; }
         } break;
+        case 10: {          /* a Czech phrase (a language whose words carry no accents) with a combining caron typed into its first word: no list has that token */
+            static char cz[2048]; static int have4;
+            if (!have4) { have4 = 1; char p0[2048]; ref_phrase(&fixed, 6, 0, p0, 0); cz[0] = p0[0]; strcpy(cz + 1, "\xCC\x8C"); strcpy(cz + 3, p0 + 1); }
+            polyseed_data *da = (polyseed_data *)(uintptr_t)0xBEEF; int sa = polyseed_decode(cz, 0, &lo, &da); int wa = ref_decode(cz, 0, -1, m->mask, 0, CAP, NULL, NULL);
+            if (sa == POLYSEED_OK) polyseed_free(da);
+            if (sa != wa) { snprintf(k, sizeof k, "c13:status:%s:auto", o->name); BADV(k, "%s through automatic detection returned %d, model %d", o->name, sa, wa); }
+            st = polyseed_decode_explicit(cz, 0, polyseed_get_lang(6), &d); want = ref_decode(cz, 0, 6, m->mask, 0, CAP, NULL, NULL);
+            if (want != ST_LANG || wa != ST_LANG) BADV("c13:model-internal", "accented Czech phrase: model says %d / %d", wa, want);
+        } break;
         case 7: case 8: {   /* every single space is a boundary: a valid phrase with one space doubled has seventeen words (one of them empty); fifteen words with a
                              * doubled space are sixteen, one of which no list has */
             static char dbl[2][2048]; static int have2;
@@ -257,8 +266,8 @@ static void apply(const struct op *o, struct mstate *m) {
                 memcpy(dbl[0], phr, n); dbl[0][n] = ' '; strcpy(dbl[0] + n + 1, sp);
                 strcpy(dbl[1], dbl[0]); *strrchr(dbl[1], ' ') = 0; }
             const char *q = dbl[o->a - 7];
-            if (o->a == 7) { st = polyseed_decode(q, 0, &lo, &d); want = ref_decode(q, 0, -1, m->mask, 0, CAP, NULL, NULL); if (want != ST_NUM_WORDS) BADV("c13:model-internal", "doubled-space phrase: model says %d", want); }
-            else { st = polyseed_decode_explicit(q, 0, polyseed_get_lang(4), &d); want = ref_decode(q, 0, 4, m->mask, 0, CAP, NULL, NULL); if (want != ST_LANG) BADV("c13:model-internal", "fifteen words with a doubled space: model says %d", want); }
+            if (o->a == 7) { st = polyseed_decode(q, 4, &lo, &d); want = ref_decode(q, 4, -1, m->mask, 0, CAP, NULL, NULL); if (want != ST_NUM_WORDS) BADV("c13:model-internal", "doubled-space phrase: model says %d", want); }
+            else { st = polyseed_decode_explicit(q, 4, polyseed_get_lang(0), &d); want = ref_decode(q, 4, 0, m->mask, 0, CAP, NULL, NULL); if (want != ST_LANG) BADV("c13:model-internal", "fifteen words with a doubled space: model says %d", want); }
         } break;
         case 5: case 6: {   /* a checksum-valid phrase that two lists recognise (English/French words; characters common to both Chinese lists): always "multiple languages" */
             static char amb[2][2048]; static int have[2];
@@ -476,7 +485,7 @@ static void build_profile(void) {
         add_op(O_BADCALL, 0, 0, 0, "load(bad-checksum)"); add_op(O_BADCALL, 1, 0, 0, "load(bad-header)"); add_op(O_BADCALL, 2, 0, 0, "decode(two-words)");
         add_op(O_BADCALL, 3, 0, 0, "decode_explicit(unknown-words)"); add_op(O_BADCALL, 4, 0, 0, "decode(wrong-coin)");
         add_op(O_BADCALL, 5, 0, 0, "decode(ambiguous en/fr phrase)"); add_op(O_BADCALL, 6, 0, 0, "decode(ambiguous zh_s/zh_t phrase)");
-        add_op(O_BADCALL, 7, 0, 0, "decode(valid phrase, one space doubled)"); add_op(O_BADCALL, 8, 0, 0, "decode_explicit(fifteen words, one space doubled)"); add_op(O_BADCALL, 9, 0, 0, "decode + decode_explicit(valid English phrase typed with U+3000 / U+00A0 spaces)");
+        add_op(O_BADCALL, 7, 0, 0, "decode(valid phrase, one space doubled)"); add_op(O_BADCALL, 8, 0, 0, "decode_explicit(fifteen words, one space doubled)"); add_op(O_BADCALL, 9, 0, 0, "decode + decode_explicit(valid English phrase typed with U+3000 / U+00A0 spaces)"); add_op(O_BADCALL, 10, 0, 0, "decode + decode_explicit(Czech phrase with a caron typed into a word)");
     } else if (P_FEAT) {
         NSLOT = 1; PASSWORDS[0] = "pw"; NPW = 1;
         RECODES[0] = (struct recv){ 0, 5, 0 }; RECODES[1] = (struct recv){ 3, 5, 1 }; NREC = 2;
@@ -496,7 +505,7 @@ static void build_profile(void) {
         PASSWORDS[0] = ""; PASSWORDS[1] = "a"; PASSWORDS[2] = "\xC3\xA9"; PASSWORDS[3] = "e\xCC\x81"; PASSWORDS[4] = "\xEF\xBD\xB6"; PASSWORDS[5] = LONGPW; PASSWORDS[6] = "\xE3\x82\xAB"; NPW = 7;
         if (G_thorough) { PASSWORDS[7] = "fi"; PASSWORDS[8] = "\xEF\xAC\x81"; NPW = 9; }   /* U+FB01 LATIN SMALL LIGATURE FI is compatibility-equivalent to "fi" */
         RECODES[0] = (struct recv){ 0, 1, 1 }; RECODES[1] = (struct recv){ 1, 9, 0 }; RECODES[2] = (struct recv){ 4, 0, 0 }; NREC = 3;
-        add_op(O_ENABLE, 13, 0, 0, "enable_features(0xffffffff)");
+        add_op(O_ENABLE, 13, 0, 0, "enable_features(0xffffffff)"); add_op(O_ENABLE, 0, 0, 0, "enable_features(0)");      /* the password operation does not depend on what is enabled when it runs */
         add_op(O_CREATE, 0, 0, 0, "create(features=0)"); add_op(O_CREATE, 0, 5, 1, "create'(features=5)");
         add_op(O_FREE, 0, 0, 0, "free(slot0)"); add_op(O_FREE, 1, 0, 0, "free(slot1)");
         for (int p = 0; p < NPW; p++) add_op(O_CRYPT, 0, p, 0, "crypt(slot0,pw%d)", p);
